@@ -65,9 +65,17 @@ func (Engine) Generate(prop string, r *kit.Rand, tier string) *kit.Scenario[Conf
 	if nops > 16 {
 		nops = 16
 	}
+	weights := []int{30, 12, 10, 6, 3, 4, 2, 28, 5}
+	if tier == "thorough" && r.Chance(0.08) {
+		// the quantifier's upper end: up to 16 goroutines, mostly forwarding-thread lookups around a few writers
+		// (keeps the linearizability search tractable)
+		c.Tasks = r.Range(9, 16)
+		nops = r.Range(c.Tasks, 22)
+		weights = []int{10, 4, 4, 3, 1, 2, 1, 70, 5}
+	}
 	for i := 0; i < nops; i++ {
 		o := Op{Task: r.Intn(c.Tasks)}
-		switch r.Weighted([]int{30, 12, 10, 6, 3, 4, 2, 28, 5}) {
+		switch r.Weighted(weights) {
 		case 0:
 			o.Op, o.Name, o.Face, o.Cost = "reg", kit.Pick(r, ribNames), uint64(r.Range(1, 3)), uint64(r.Intn(3))
 			o.Origin = kit.Pick(r, []uint64{0, 0, 128})
@@ -630,6 +638,7 @@ func (e Engine) runOnce(t *testing.T, ctx *kit.Ctx, sc *kit.Scenario[Config, Op]
 	alive := make([]bool, ntask)
 	blocked := make([]bool, ntask)
 	parked := make([]string, ntask) // where each task is parked (its last yield tag)
+	selfHeld := make([]bool, ntask) // the task was seen taking a FIB lock it already holds
 	for i := range alive {
 		alive[i] = true
 	}
@@ -720,8 +729,14 @@ func (e Engine) runOnce(t *testing.T, ctx *kit.Ctx, sc *kit.Scenario[Config, Op]
 						writer = i
 					}
 				}
+				for i := 0; i < ntask; i++ {
+					if i != pick && alive[i] && selfHeld[i] {
+						other = true // a task already found re-entrant is parked at a lock hook while holding the lock
+					}
+				}
 				if !other {
 					ctx.Probe("reentrant-fib-lock")
+					selfHeld[pick] = true
 					if base == "fib.lock" {
 						res.Violation = &kit.Violation{Class: "C16/deadlock", Key: c.Fib + "/reentrant-write-lock", Step: step,
 							Detail: fmt.Sprintf("task %d takes the FIB write lock while it already holds the FIB lock itself", pick)}
@@ -749,10 +764,12 @@ func (e Engine) runOnce(t *testing.T, ctx *kit.Ctx, sc *kit.Scenario[Config, Op]
 		for i := range blocked {
 			blocked[i] = false
 		}
-		// overlap rule: two tasks inside RIB mutators at once (the RIB is not synchronised by a FIB lock)
-		// a task is inside a RIB mutator once it has reached one of the FIB calls the mutator makes
-		// (a task parked before the RIB's own lock, or still in the face table part of a teardown, is not)
-		if inRib[pick] && (strings.HasPrefix(msg.tag, "fib.") || msg.tag == "rib.mut") {
+		// (An earlier version reported two tasks "inside RIB mutators at once" as a data race by definition. That is
+		// only true while every mutator holds the RIB lock from entry to exit, which the property does not demand:
+		// the lock-discipline probes inside the RIB - rib.mut, rib.flatten, rib.cleanup, rib.prune: the RIB mutex
+		// must be held whenever RIB state is read for flattening or written - say the same thing soundly, and
+		// atomicity is the business of the linearizability check.)
+		if inRib[pick] && (strings.HasPrefix(msg.tag, "fib.") || strings.HasPrefix(msg.tag, "rib.") && msg.tag != "rib.lock") {
 			ribYielded[pick] = true
 		}
 		n := 0
@@ -760,11 +777,6 @@ func (e Engine) runOnce(t *testing.T, ctx *kit.Ctx, sc *kit.Scenario[Config, Op]
 			if alive[i] && inRib[i] && ribYielded[i] {
 				n++
 			}
-		}
-		if n >= 2 && res.Violation == nil {
-			res.Violation = &kit.Violation{Class: "C16/unsynchronised-overlap", Key: "rib", Step: step,
-				Detail: "two tasks are inside RIB mutators (route registration/removal/face clean-up) at the same time: the RIB tree and its route slices are written without mutual exclusion"}
-			break
 		}
 		if n >= 1 {
 			overlapped = true
